@@ -160,6 +160,49 @@ pub fn run(tier: &str, seed: u64, focus: &str, out: &mut Out) {
                 out.put(&encode_str_case(next(), "headOnly", &s, true));
             }
         }
+        // (3b) envelopes inside envelopes; payloads that begin with a second head or end with a second trailer
+        {
+            let heads = [MACRO05_HEAD, MACRO06_HEAD];
+            let inner: [&[u32]; 6] = [&[], &[0x41], &[0x41, 0x42, 0x43, 0x20AC], &[0x31, 0x32], &[0xE9], &[0x1F600, 0x61]];
+            let u = |b: &[u8]| -> Vec<u32> { b.iter().map(|x| *x as u32).collect() };
+            for h1 in heads {
+                for body in inner {
+                    for variant in 0..8 {
+                        let mut s = u(h1);
+                        match variant {
+                            0 | 1 => {
+                                s.extend(u(heads[variant]));
+                                s.extend_from_slice(body);
+                            }
+                            2 | 3 => {
+                                s.extend(u(heads[variant - 2]));
+                                s.extend_from_slice(body);
+                                s.extend(u(MACRO_TRAIL));
+                            }
+                            4 => {
+                                s.extend_from_slice(body);
+                                s.extend(u(MACRO_TRAIL));
+                            }
+                            5 => {
+                                s.extend_from_slice(body);
+                                s.extend(u(MACRO_TRAIL));
+                                s.extend(u(MACRO_TRAIL));
+                            }
+                            6 => {
+                                s.extend_from_slice(body);
+                                s.extend(u(heads[0]));
+                            }
+                            _ => {
+                                s.extend_from_slice(body);
+                                s.push(0x1E);
+                            }
+                        }
+                        s.extend(u(MACRO_TRAIL));
+                        out.put(&encode_str_case(next(), "envelopeNested", &s, true));
+                    }
+                }
+            }
+        }
         // (4) helpers: utf8_to_latin1 for every scalar value, latin1_to_utf8 for every byte
         let step = 4096u32;
         let mut start = 0u32;
@@ -385,6 +428,27 @@ pub fn run(tier: &str, seed: u64, focus: &str, out: &mut Out) {
                 chunks.push(json!({"eci": eci, "bytes": bytes_json(&bs)}));
             }
             out.put(&json!({"id": next(), "fam": "str", "stratum": "eciSpans", "events": [{"ev": "EciSpans", "macro": mac, "chunks": chunks, "res": decode_str_of(stream)}]}));
+        }
+        // every byte value at the block boundaries of an otherwise printable body (word-at-a-time fast paths see whole blocks)
+        for eci in [0u8, 3, 11, 13, 26, 27] {
+            for (len, pos) in [(8usize, 7usize), (16, 15), (8, 0), (16, 8), (17, 16), (4, 3), (32, 31)] {
+                for b in 0..=255u8 {
+                    let edge = b < 0x21 || (0x7E..=0xA1).contains(&b) || b >= 0xFC || [0xD0u8, 0xDB, 0xDD, 0xDE, 0xF0, 0xFD].contains(&b);
+                    if !thorough && pos != len - 1 && !edge {
+                        continue;
+                    }
+                    if !thorough && len != 8 && len != 16 && !edge {
+                        continue;
+                    }
+                    let mut bs: Vec<u8> = (0..len).map(|i| b'A' + (i % 26) as u8).collect();
+                    bs[pos] = b;
+                    let mut s = vec![241, eci + 1];
+                    for x in &bs {
+                        s.extend(ascii_cw(*x));
+                    }
+                    out.put(&json!({"id": next(), "fam": "str", "stratum": "charsetBlock", "events": [{"ev": "EciBody", "eci": eci, "bytes": bytes_json(&bs), "res": decode_str_of(s)}]}));
+                }
+            }
         }
         // ECI 27 (US-ASCII) and multi-ECI streams
         for _ in 0..(if thorough { 2000 } else { 300 }) {
